@@ -43,6 +43,29 @@ func implTraceSQL(query string, c tqctx, n int) (texts []string, script *traceql
 	return texts, script, nil
 }
 
+// implTraceSel: the select object the real planner returns (one Process), and its text
+func implTraceSel(query string, c tqctx) (sel sql.ISelect, text string, script *traceql_parser.TraceQLScript, err error) {
+	defer func() {
+		if r := recover(); r != nil {
+			err = fmt.Errorf("panic: %v", r)
+		}
+	}()
+	script, err = traceql_parser.Parse(query)
+	if err != nil {
+		return nil, "", nil, fmt.Errorf("parse: %w", err)
+	}
+	p, err := clickhouse_transpiler.Plan(script)
+	if err != nil {
+		return nil, "", script, fmt.Errorf("plan: %w", err)
+	}
+	sel, err = p.Process(c.planner())
+	if err != nil {
+		return nil, "", script, fmt.Errorf("process: %w", err)
+	}
+	text, err = sel.String(sql.DefaultCtx())
+	return sel, text, script, err
+}
+
 func countSelectors(s *traceql_parser.TraceQLScript) int {
 	n := 0
 	for ; s != nil; s = s.Tail {
